@@ -42,6 +42,9 @@ func ResolveRef(root interface{}, ref *Ref) (*Schema, error) {
 	case Schema:
 		return &sch, nil
 	case *Schema:
+		if sch == nil {
+			return nil, fmt.Errorf("reference %q designates no value: %w", ref.String(), ErrUnknownTypeForReference)
+		}
 		return sch, nil
 	case map[string]interface{}:
 		newSch := new(Schema)
